@@ -210,7 +210,10 @@ func c28Stateful(full bool) []c28Item {
 	add(true, "return", "return 2", "break", "break 2", "continue", "continue 2")
 	add(false, "return 0", "return -1", "return a", "return 1 2", "break 0", "break -1", "break a", "continue 0", "continue -1", "continue 99999999999999999999", "exit", "exit 3", "exit -1", "exit a")
 	add(false, "g() { shift; }; g", "g", "g() { local a=1; unset a; echo $a; }; g", "unset -f g", "g() { return 5; }", "g() { break; }; g")
-	add(false, "shopt -s expand_aliases", "alias a='shift 3'", "unalias a", "a", "alias")
+	add(false, "alias a='shift 3'", "unalias a", "a", "alias")
+	// the three-step history enable / define (boundary values) / inspect or use
+	add(true, "shopt -s expand_aliases", "alias e= b=' ' a='a '", "type e b a")
+	add(false, "command -V e b", "e", "b e a", "unalias e", "shopt -u expand_aliases")
 	add(false, "source f", "source f 1 2", ". nosuch", "eval 'shift 2'", "eval return", "eval 'set -- q'")
 	return out
 }
